@@ -448,6 +448,62 @@ def der_codec_scenarios(prog, chk, pid, tier):
     chk.info["der_codec_scenarios"] = stk.runs
 
 
+def pubkey_encoding_scenarios(prog, chk, pid, tier):
+    """public-key encoders with SYMBOLIC affine coordinates (fixed-width number_to_string as a term constructor, licensed by
+    C09.number-to-string-fixed-width): raw = X || Y, uncompressed = 04 || X || Y, DER = the P-256 SubjectPublicKeyInfo
+    (RFC 5480: SEQ { SEQ { ecPublicKey, prime256v1 }, BIT STRING 00 04 X Y }) byte for byte, and bec2format's raw conversion of
+    that DER is X || Y.  The curve object is built inside the scenario from the literals audited by C17."""
+    from bfsa.exprs import sbytes
+    from rules import stackrt as R
+    import rules.stackrt as RR
+
+    P = lambda s_: "%s.%s" % (pid, s_)
+    U = E + "util"
+
+    def h_n2s(ex, fi, args, kwargs, st, node):
+        num, order = args[0], args[1]
+        if is_const(num) or not is_const(order):
+            return None
+        l = (1 + len("%x" % cval(order))) // 2
+        return sbytes([mk("byteof", num, l, i) for i in range(l)])
+
+    stk = R.Stack(prog, extra_hooks={U + ".number_to_string": h_n2s})
+    src = (
+        "def drv(x, y, ProxyC):\n"
+        "    cf = ellipticcurve.CurveFp(0xffffffff00000001000000000000000000000000ffffffffffffffffffffffff, -3, 0x5ac635d8aa3a93e7b3ebbd55769886bc651d06b0cc53b0f63bce3c3e27d2604b, 1)\n"
+        "    gen = ellipticcurve.PointJacobi(cf, 0x6b17d1f2e12c4247f8bce6e563a440f277037d812deb33a0f4a13945d898c296, 0x4fe342e2fe1a7f9b8ee7eb4a7c0f9e162bce33576b315ececbb6406837bf51f5, 1, 0xffffffff00000000ffffffffffffffffbce6faada7179e84f3b9cac2fc632551, generator=True)\n"
+        "    cv = Curve('NIST256p', cf, gen, (1, 2, 840, 10045, 3, 1, 7), 'prime256v1')\n"
+        "    pt = ellipticcurve.PointJacobi(cf, x, y, 1, cv.order)\n"
+        "    vk = VerifyingKey.from_public_point(pt, cv, sha1, False)\n"
+        "    return (vk.to_string(), vk.to_string('uncompressed'), vk.to_der(), ProxyC(vk).to_raw_bin_fmt())\n")
+    x, y = mk("param", "x"), mk("param", "y")
+    saved = RR.INLINE
+    RR.INLINE = tuple(saved) + (E + "der", E + "_compat", U, E + "keys", E + "ellipticcurve", E + "ecdsa", E + "curves")
+    try:
+        ex, res = stk.run(E + "keys", src, {"x": x, "y": y, "ProxyC": mk("class", "register_crypto_plugin.PublicEccKeyProxy")})
+    finally:
+        RR.INLINE = saved
+    fk = prog.method(E + "keys.VerifyingKey", "to_der")
+    where = "%s:%d" % (fk.file, fk.lineno)
+    X = [mk("byteof", x, 32, i) for i in range(32)]
+    Y = [mk("byteof", y, 32, i) for i in range(32)]
+    spki = [C(b_) for b_ in bytes.fromhex("3059301306072A8648CE3D020106082A8648CE3D03010703420004")]
+    ok, why = not res.dead and res.ret is not None and unsnap(res.ret).op == "tuple", "scenario raises (%s)" % (ex._dead[1] if ex._dead else "?")
+    if ok:
+        raw, unc, der_, braw = [R.flat(ex, res, t) for t in unsnap(res.ret).args[0]]
+
+        def same(a, b):
+            return a is not None and len(a) == len(b) and all((p_ is q_) or (is_const(p_) and is_const(q_) and cval(p_) == cval(q_)) for p_, q_ in zip(a, b))
+
+        checks = [("raw encoding is X || Y", same(raw, X + Y)), ("uncompressed encoding is 04 || X || Y", same(unc, [C(4)] + X + Y)),
+                  ("DER is the P-256 SubjectPublicKeyInfo header followed by X || Y", same(der_, spki + X + Y)),
+                  ("bec2format's raw conversion of that DER is X || Y", same(braw, X + Y))]
+        failed = [t for t, g in checks if not g]
+        ok, why = not failed, "; ".join(failed)
+    chk.require(ok, P("pubkey-encodings"), fk.qualname, "to_string(), to_string('uncompressed'), to_der(), PublicEccKeyProxy.to_raw_bin_fmt() for symbolic (x, y)", where,
+                "for every point the public-key encodings are X || Y, 04 || X || Y and the RFC 5480 SubjectPublicKeyInfo for prime256v1 with the point as BIT STRING; the 27-byte header bec2format strips is exactly that prefix", why)
+
+
 def run(prog, chk, tier):
     chk.explanation = ("The decoders of the vendored ECC library are interpreted with the DER primitives, byte helpers and point decoders inlined; explicit raises, assertions and "
                        "implicit raisers are collected with their handlers; implicit ones and assertions are discharged by Fourier-Motzkin entailment over path facts (length "
@@ -461,3 +517,4 @@ def run(prog, chk, tier):
     const_rules(prog, chk, "C19")
     point_encoding_rules(prog, chk, "C19")
     stackrt.guarded(chk, "C19.der-codec-scenarios", der_codec_scenarios, prog, chk, "C19", tier)
+    stackrt.guarded(chk, "C19.pubkey-encoding-scenarios", pubkey_encoding_scenarios, prog, chk, "C19", tier)
